@@ -7,14 +7,14 @@ open Lean Elab Command
 
 namespace GoBk.Audit
 
-def run (modName : Name) : CommandElabM Unit := do
+def run (modName : Name) (ns : Name := modName) : CommandElabM Unit := do
   let env ← getEnv
   let some idx := env.getModuleIdx? modName | logInfo m!"MODULE-NOT-FOUND {modName}"
   let mut names : Array Name := #[]
   for (n, ci) in env.constants.map₁.toList do
     if env.getModuleIdxFor? n == some idx then
       match ci with
-      | .thmInfo _ => if !n.isInternal && modName.isPrefixOf n then names := names.push n
+      | .thmInfo _ => if !n.isInternal && ns.isPrefixOf n then names := names.push n
       | _ => pure ()
   let sorted := names.qsort (fun a b => a.toString < b.toString)
   for n in sorted do
